@@ -6,7 +6,6 @@ package objects
 import (
 	"bytes"
 	"encoding/binary"
-	"errors"
 	"fmt"
 	"io"
 	"sort"
@@ -174,6 +173,15 @@ func (d *StrListDecoder) readUint32(r io.Reader) (uint32, error) {
 	return binary.BigEndian.Uint32(b), nil
 }
 
+// midRecordErr: the stream ending inside a record is not the clean end of the
+// stream that callers take io.EOF for.
+func midRecordErr(err error) error {
+	if err == io.EOF {
+		return io.ErrUnexpectedEOF
+	}
+	return err
+}
+
 func (d *StrListDecoder) Read(r io.Reader) (int64, []string, error) {
 	d.pos = 0
 	count, err := d.readUint32(r)
@@ -185,7 +193,7 @@ func (d *StrListDecoder) Read(r io.Reader) (int64, []string, error) {
 	for i = 0; i < count; i++ {
 		l, err := d.readUint16(r)
 		if err != nil {
-			return 0, nil, err
+			return 0, nil, midRecordErr(err)
 		}
 		if l == 0 {
 			sl = append(sl, "")
@@ -194,13 +202,10 @@ func (d *StrListDecoder) Read(r io.Reader) (int64, []string, error) {
 		d.ensureBufSize(int(l))
 		n, err := io.ReadFull(r, d.buf[:l])
 		d.pos += n
-		sl = append(sl, string(d.buf[:n]))
-		if errors.Is(err, io.EOF) && i == count-1 {
-			break
-		}
 		if err != nil {
-			return 0, nil, err
+			return 0, nil, midRecordErr(err)
 		}
+		sl = append(sl, string(d.buf[:n]))
 	}
 	return int64(d.pos), sl, nil
 }
@@ -222,7 +227,7 @@ func (d *StrListDecoder) ReadBytes(r io.Reader) (n int, b []byte, err error) {
 		d.ensureBufSize(n + 2)
 		_, err = io.ReadFull(r, d.buf[n:n+2])
 		if err != nil {
-			err = fmt.Errorf("error reading string length (2 bytes): %w", err)
+			err = fmt.Errorf("error reading string length (2 bytes): %w", midRecordErr(err))
 			return
 		}
 		l := binary.BigEndian.Uint16(d.buf[n:])
@@ -231,11 +236,8 @@ func (d *StrListDecoder) ReadBytes(r io.Reader) (n int, b []byte, err error) {
 		d.ensureBufSize(n + int(l))
 		m, err = io.ReadFull(r, d.buf[n:n+int(l)])
 		n += m
-		if errors.Is(err, io.EOF) && i == count-1 {
-			break
-		}
 		if err != nil {
-			err = fmt.Errorf("error reading string (%d bytes): %w", l, err)
+			err = fmt.Errorf("error reading string (%d bytes): %w", l, midRecordErr(err))
 			return
 		}
 	}
